@@ -274,9 +274,9 @@ theorem HInv.invoke {st : St} (h : HInv st) (ctx : Ctx) (fn : Fn) (s : Nat) (inf
                   · injection hchk with e; rw [← e]; exact hw.modVerified s true
                   · cases hchk
                   · cases hchk
-              have hb := hw3.buildList ctx (engineFuel w3) params s
+              have hb := hw3.buildList ctx (engineFuel w3 params) params s
               rw [← wrapErr_state _ DErr.argsFailed] at hb
-              cases hbl : EM.wrapErr (Dig.buildList ctx (engineFuel w3) params s) DErr.argsFailed w3 with
+              cases hbl : EM.wrapErr (Dig.buildList ctx (engineFuel w3 params) params s) DErr.argsFailed w3 with
               | mk r4 w4 =>
                 rw [hbl] at hb
                 cases r4 with
